@@ -294,8 +294,10 @@ where
     // Generate number of rows for the range trace.
     let range_table_len = range.get_number_range_checker_rows();
 
-    // Get the trace length required to hold all execution trace steps.
-    let max_len = range_table_len.max(clk as usize).max(chiplets.trace_len());
+    // Get the trace length required to hold all execution trace steps; the executed operations
+    // must be followed by at least one HALT row (it carries the program hash at the end of the
+    // decoder trace).
+    let max_len = range_table_len.max(clk as usize + 1).max(chiplets.trace_len());
 
     // pad the trace length to the next power of two and ensure that there is space for the
     // rows to hold random values
